@@ -518,6 +518,14 @@ pub fn run() -> i32 {
                 eprintln!("SELFTEST-FAIL: c04_macro_lookup: case {}", case);
             }
         }
+        for case in 0..=3u8 {
+            crate::sym::load(vec![vec![case]]);
+            n += 1;
+            if std::panic::catch_unwind(|| crate::node::c17_special_members()).is_err() {
+                c11_bad += 1;
+                eprintln!("SELFTEST-FAIL: c17_special_members: case {}", case);
+            }
+        }
         for code in 0..=5u8 {
             crate::sym::load(vec![vec![code]]);
             n += 1;
